@@ -1,3 +1,4 @@
+#![allow(static_mut_refs)]
 //! Native confirmation of a C18 counterexample on the real `mithril-resource-pool` crate.
 //! usage: verif-replay-pool <idle> <size> <op> <op> ...     ops: A0 A1 B0 B1 R F0..F3 X
 //! The operation sequence is the one of the failing Kani harness; the solver-chosen parameters (initial
@@ -10,7 +11,32 @@ use std::time::Duration;
 struct Res {
     generation: u64,
 }
-impl Reset for Res {}
+// preemption inside a give-back: when armed, `reset` (called by give_back_resource before it takes the pool's locks)
+// runs one complete refresh of another user, as the Kani harness does
+static mut PRE_POOL: *const ResourcePool<Res> = std::ptr::null();
+static mut PRE_ARMED: Option<usize> = None;
+
+impl Reset for Res {
+    fn reset(&mut self) -> mithril_resource_pool_std_result::R {
+        unsafe {
+            if let Some(refill) = PRE_ARMED.take() {
+                if !PRE_POOL.is_null() {
+                    let pool = &*PRE_POOL;
+                    let dn = pool.discriminant().unwrap() + 1;
+                    pool.set_discriminant(dn).unwrap();
+                    pool.clear();
+                    for _ in 0..refill {
+                        pool.give_back_resource(Res { generation: dn }, dn).unwrap();
+                    }
+                }
+            }
+        }
+        Ok(())
+    }
+}
+mod mithril_resource_pool_std_result {
+    pub type R = Result<(), anyhow::Error>;
+}
 
 const T: Duration = Duration::from_millis(1);
 
@@ -21,6 +47,10 @@ fn run(idle: usize, size: usize, ops: &[String], g0: u64, raw: &[u64], paths: &[
     }
     let pool = ResourcePool::new(size, v);
     pool.set_discriminant(g0).unwrap();
+    unsafe {
+        PRE_POOL = &pool as *const _;
+        PRE_ARMED = None;
+    }
     let mut held: [Option<ResourcePoolItem<'_, Res>>; 2] = [None, None];
     let mut ri = 0;
     let mut pi = 0;
@@ -37,9 +67,18 @@ fn run(idle: usize, size: usize, ops: &[String], g0: u64, raw: &[u64], paths: &[
         }
     };
     for op in ops {
-        match op.as_str() {
+        let (opn, pre) = match op.strip_suffix('!') {
+            Some(o) => (o, true),
+            None => (op.as_str(), false),
+        };
+        if pre {
+            unsafe {
+                PRE_ARMED = Some(0);
+            }
+        }
+        match opn {
             "A0" | "A1" => {
-                let u = if op == "A0" { 0 } else { 1 };
+                let u = if opn == "A0" { 0 } else { 1 };
                 if held[u].is_none() && pool.count().unwrap() > 0 {
                     let item = pool.acquire_resource(T).unwrap();
                     let d = pool.discriminant().unwrap();
@@ -60,7 +99,7 @@ fn run(idle: usize, size: usize, ops: &[String], g0: u64, raw: &[u64], paths: &[
                 pool.give_back_resource(Res { generation: g }, g).unwrap();
             }
             "F0" | "F1" | "F2" | "F3" => {
-                let n: usize = op[1..].parse().unwrap();
+                let n: usize = opn[1..].parse().unwrap();
                 let dn = pool.discriminant().unwrap() + 1;
                 pool.set_discriminant(dn).unwrap();
                 pool.clear();
@@ -70,6 +109,9 @@ fn run(idle: usize, size: usize, ops: &[String], g0: u64, raw: &[u64], paths: &[
             }
             "X" => pool.reset_available_resources().unwrap(),
             _ => panic!("unknown op"),
+        }
+        unsafe {
+            PRE_ARMED = None;
         }
         if pool.count().unwrap() > pool.size() {
             return Some("pool-exceeds-size".into());
@@ -95,7 +137,7 @@ fn run(idle: usize, size: usize, ops: &[String], g0: u64, raw: &[u64], paths: &[
 }
 
 fn search(idle: usize, size: usize, ops: &[String]) -> Option<String> {
-    let n_raw = ops.iter().filter(|o| *o == "R").count().max(1);
+    let n_raw = ops.iter().filter(|o| *o == "R" || *o == "R!").count().max(1);
     for g0 in [5u64, 0] {
         let cands: Vec<u64> = (g0.saturating_sub(1)..=g0 + 4).collect();
         let mut idx = vec![0usize; n_raw];
@@ -149,6 +191,10 @@ fn main() {
     if users >= 2 {
         alphabet.push("A1".into());
         alphabet.push("B1".into());
+    }
+    if a.len() > 5 && a[5] == "preempt" {
+        alphabet.push("B0!".into());
+        alphabet.push("R!".into());
     }
     let mut found = std::collections::BTreeMap::new();
     let mut count = 0u64;
